@@ -17,6 +17,44 @@ Theorem C09_stop_only_where_running : forall fuel ag s s' log,
   Forall call_ok ag -> exec_log fuel ag s [] = Ok (s', log) -> emitted_in_order emission_fact log.
 Proof. exact requests_only_from_groups. Qed.
 
+(* stop_request_order, partial (same theorem as C03, kind-generic): for every guarded history, at every stop request every current command of the job belongs to the group popped last and every key still planned is SMALLER than its key; popped keys strictly decrease *)
+Theorem C09_stop_request_order_partial : forall fuel cf ops s' gh' log,
+  forallb (fun t => op_ok (fst (fst t))) ops = true ->
+  run_g fuel (init_st cf) [] ops [] = GOk s' gh' log ->
+  seq_shape_inv [] s' gh' /\ Forall entry_ok log.
+Proof. exact seq_shape_from_init. Qed.
+
+(* same_sequence_together (every state): a popped group is handed, whole, to ONE AJGroup call, which the agenda machine runs to exhaustion within the same operation *)
+Theorem C09_same_sequence_together : forall jid s push outs s',
+  step_aj_next jid s = Ok ((push, outs), s') ->
+  (push = [] /\ s' = s) \/
+  (exists j seq group,
+     aget jid (s_jobs s) = Some j /\ j_current j = [] /\
+     pickup (j_kind j) (akeys (j_planned j)) = Some seq /\ aget seq (j_planned j) = Some group /\
+     push = [AJGroup jid group; AJNext jid] /\
+     s' = set_jobs (aset jid (set_job_fields j (adel seq (j_planned j)) [] (j_stop_request j)) (s_jobs s)) s).
+Proof. exact aj_next_cases. Qed.
+
+(* stop_application_order, local form *)
+Theorem C09_stop_application_order_local : forall k s push outs s',
+  step_next_pop k s = Ok ((push, outs), s') ->
+  push = [] \/
+  exists seq cur,
+    cm_current (get_cmdr k s) = [] /\
+    aget seq (cm_planned (get_cmdr k s)) = Some cur /\
+    (forall y, In y (akeys (cm_planned (get_cmdr k s))) ->
+       match k with KStart => seq <= y | KStop => y <= seq end) /\
+    push = [CStartJobs k cur; CNext k] /\
+    get_cmdr k s' = mkCmdr (adel seq (cm_planned (get_cmdr k s))) cur.
+Proof. exact application_pop_is_extremal. Qed.
+
+(* stop_request_order + stop_application_order along whole histories, partial (kind-generic theorem, see C03) *)
+Theorem C09_stop_application_order_partial : forall fuel cf ops s' gh' log elog,
+  forallb (fun t => op_ok2 (fst (fst t))) ops = true ->
+  run_gc fuel (init_st cf) [] ops [] [] = GCOk s' gh' log elog ->
+  seq_shape_inv [] s' gh' /\ Forall entry_ok log /\ Forall emitted_by_current_job elog.
+Proof. exact ordering_partial. Qed.
+
 (* the Stopper pickup logic (reflected from /repo) is the maximum of the planned keys, at both levels *)
 Theorem C09_pickup_stop_max : forall keys k, pickup KStop keys = Some k -> In k keys /\ forall y, In y keys -> y <= k.
 Proof. exact pickup_stop_max. Qed.
